@@ -800,6 +800,82 @@ func convertStream(w *World, seed uint64, n int, out io.Writer) int {
 			bad++
 			fmt.Fprintf(out, "CONVBAD the operator's own RemoveValidator was refused on a genesis with a foreign delegation\n")
 		}
+		// the admin's SetPower on the validator that carries the foreign delegation: tokens and shares are the requested
+		// amount exactly, the voting power is amount / 10^6
+		o3 := node6.ExecBlock(Block{DtNs: 1_000_000_000, Txs: []Tx{{Signer: -1, Msgs: []Msg{{Kind: "SETPOWER", Args: []string{"0", "8000000", "1"}}}}}}, nil)
+		v0, _ := node6.App.StakingKeeper.GetValidator(node6.Ctx(), w.Ops[0].Val)
+		if len(o3.Txs) != 1 || o3.Txs[0].Code != 0 {
+			bad++
+			fmt.Fprintf(out, "CONVBAD SetPower on a validator with a foreign delegation failed: %s\n", o3.Txs[0].Log)
+		} else if !v0.Tokens.Equal(sdkmath.NewInt(8_000_000)) || !v0.DelegatorShares.Equal(sdkmath.LegacyNewDec(8_000_000)) {
+			bad++
+			fmt.Fprintf(out, "CONVBAD SetPower(8000000) on a validator with a foreign delegation left tokens %s shares %s\n", v0.Tokens, v0.DelegatorShares)
+		}
+	}()
+	// a PoA genesis whose pending list overlaps the validator set (an application filed under the operator of a genesis
+	// validator, next to an ordinary one): whatever one thinks of such a genesis, the pending query answers with the
+	// committed list — every entry, in order — and asking changes nothing: list, query and export agree before and after
+	func() {
+		defer func() {
+			if e := recover(); e != nil {
+				bad++
+				fmt.Fprintf(out, "CONVBAD overlapping-genesis probe panicked: %v\n", e)
+			}
+		}()
+		mk := func(op, key int) poa.Validator {
+			pkAny, _ := codectypes.NewAnyWithValue(w.PubKey(key))
+			sv := stakingtypes.Validator{OperatorAddress: w.Ops[op].Val.String(), ConsensusPubkey: pkAny, Status: stakingtypes.Unbonded, Tokens: sdkmath.ZeroInt(),
+				DelegatorShares: sdkmath.LegacyZeroDec(), Description: stakingtypes.NewDescription("x", "", "", "", ""), UnbondingTime: time.Unix(0, 0).UTC(),
+				Commission:      stakingtypes.NewCommission(sdkmath.LegacyNewDecWithPrec(2, 1), sdkmath.LegacyNewDecWithPrec(5, 1), sdkmath.LegacyNewDecWithPrec(1, 1)),
+				MinSelfDelegation: sdkmath.OneInt()}
+			return poa.ConvertStakingToPOA(sv)
+		}
+		bz, err := cdc.MarshalJSON(&poa.GenesisState{Vals: []poa.Validator{mk(0, 7), mk(4, 4)}})
+		if err != nil {
+			bad++
+			fmt.Fprintf(out, "CONVBAD genesis marshal (5) %v\n", err)
+			return
+		}
+		gen7 := gen
+		gen7.PoaGenesis = bz
+		node7, _, err := NewNode(w, gen7)
+		if err != nil {
+			bad++
+			fmt.Fprintf(out, "CONVBAD overlapping genesis import: %v\n", err)
+			return
+		}
+		defer node7.Close()
+		node7.ExecBlock(Block{DtNs: 1_000_000_000}, nil)
+		stored := func() int {
+			v, err := node7.App.POAKeeper.PendingValidators.Get(node7.Ctx())
+			if err != nil {
+				return -1
+			}
+			return len(v.Validators)
+		}
+		before := stored()
+		var res poa.PendingValidatorsResponse
+		qerr := node7.routedQuery("/strangelove_ventures.poa.v1.Query/PendingValidators", &poa.QueryPendingValidatorsRequest{}, &res)
+		if before != 2 || qerr != nil || len(res.Pending) != before {
+			bad++
+			fmt.Fprintf(out, "CONVBAD the pending query (%d entries, err %v) differs from the committed list (%d entries) after a genesis import\n", len(res.Pending), qerr, before)
+		}
+		ctxq, _ := node7.Ctx().CacheContext()
+		if _, err := node7.App.POAKeeper.GetPendingValidators(ctxq); err == nil {
+			if v, err := node7.App.POAKeeper.PendingValidators.Get(ctxq); err != nil || len(v.Validators) != before {
+				bad++
+				fmt.Fprintf(out, "CONVBAD reading the pending list changed the stored list\n")
+			}
+		}
+		if exp := node7.App.POAKeeper.ExportGenesis(node7.Ctx()); len(exp.Vals) != before {
+			bad++
+			fmt.Fprintf(out, "CONVBAD genesis export (%d entries) differs from the committed list (%d)\n", len(exp.Vals), before)
+		}
+		node7.ExecBlock(Block{DtNs: 1_000_000_000}, nil)
+		if stored() != before {
+			bad++
+			fmt.Fprintf(out, "CONVBAD the committed pending list changed without any message\n")
+		}
 	}()
 	fmt.Fprintf(out, "CONV records=%d bad=%d\n", n, bad)
 	return bad
